@@ -431,6 +431,10 @@ func refineOne(P *Program, ic *FuncContract, ifaceT types.Type, c *FuncContract,
 				imods = append(imods, fv.modTargets(iPre, m)...)
 			}
 			for _, m := range c.Modifies {
+				if id, isId := m.(*EIdent); isId && ic.OwnState && len(c.Params) > 0 && id.Name == c.Params[0] {
+					// the implementation's own receiver cell: opaque at call sites through the interface
+					continue
+				}
 				for _, cm := range fv.modTargets(cPre, m) {
 					var ds []Term
 					for _, im := range imods {
